@@ -60,6 +60,13 @@ def realise(at, k=3, spacing="uniform", rng=None, relabel=False, shifts=False, f
         pool = rng.choice(np.arange(base, base + 3 * nv + 7), size=nv, replace=False)
         vlab = [int(x) for x in pool]
         vorder = [int(x) for x in rng.permutation(nv)]
+        # id 0 is a valid id (and a falsy one): in a third of the renumbered meshes one vertex - mostly a junction - has it.
+        # Decided from numbers already drawn, so that the random stream of the callers does not change.
+        zr = np.random.default_rng([int(pool[0]), nv, 17])
+        zero_ids = zr.random() < 0.35
+        if zero_ids:
+            nj = len(jidx)
+            vlab[int(zr.integers(nj)) if zr.random() < 0.7 else int(zr.integers(nv))] = 0
     else:
         vlab = [i + id_base for i in range(nv)]
         vorder = list(range(nv))
@@ -75,6 +82,8 @@ def realise(at, k=3, spacing="uniform", rng=None, relabel=False, shifts=False, f
         ebase = int(rng.integers(1, 30))
         elab = [int(x) for x in rng.choice(np.arange(ebase, ebase + 2 * ne + 5), size=ne, replace=False)]
         eorder = [int(x) for x in rng.permutation(ne)]
+        if zero_ids and ne and zr.random() < 0.5:
+            elab[int(zr.integers(ne))] = 0
     else:
         elab = list(range(ne))
         eorder = list(range(ne))
@@ -92,6 +101,8 @@ def realise(at, k=3, spacing="uniform", rng=None, relabel=False, shifts=False, f
         cbase = int(rng.integers(1, 40))
         clab = {c: int(x) for c, x in zip(cids, rng.choice(np.arange(cbase, cbase + 3 * len(cids) + 3), size=len(cids),
                                                             replace=False))}
+        if zero_ids and zr.random() < 0.5:
+            clab[cids[int(zr.integers(len(cids)))]] = 0
     else:
         clab = {c: c for c in cids}
     corder = [cids[i] for i in rng.permutation(len(cids))] if cell_order else cids
